@@ -363,6 +363,9 @@ class Querier:
     def smart(self, I, st, addr, msg, target_ty, crate):
         raise Gap('querier: smart query not modelled by harness')
 
+    def all_validators(self, I, st):
+        raise Gap('querier: the chain\'s validator set is not modelled by harness')
+
 
 def install(S):
     I = S.I
@@ -495,7 +498,9 @@ def install(S):
     def h_map_range(st, fn, callee, args, dty):
         # Map::range(storage, min, max, order) / Map::keys(...)
         tys = callee_tys(callee, 'Map')
-        k = callee.rsplit('::', 1)[-1].split('::<')[0]
+        import re as _re
+        _m = _re.search(r'::(range|keys)(?:::<[^:]*>)?$', callee.strip())
+        k = _m.group(1) if _m else callee.rsplit('::', 1)[-1].split('::<')[0]
         fam = map_fam(st, args[0])
         for st2, lo in S.conc(st, args[2]):
             for st3, hi in S.conc(st2, args[3]):
@@ -768,6 +773,27 @@ def install(S):
         for st2, r in q(st).delegation(I, st, d, v):
             yield st2, ok(r)
     A('query_delegation', r'QuerierWrapper::query_delegation$', h_query_delegation)
+
+    def h_query_wasm_smart(st, fn, callee, args, dty):
+        # QuerierWrapper::query_wasm_smart::<T, impl Into<String>, M>(contract_addr, &msg)
+        m = re.search(r'::query_wasm_smart::<(.*)>$', callee)
+        tty = None
+        if m:
+            from .mirparse import split_top
+            tty = split_top(m.group(1))[0].strip()
+        addr = S.to_str(st, args[1])
+        msg = I.val(st, args[2])
+        msg = msg.v if isinstance(msg, JsonV) else msg
+        st.emit(('query', 'smart', addr, msg))
+        for st2, r in q(st).smart(I, st, addr, msg, tty, fn.crate):
+            yield st2, r
+    A('query_wasm_smart', r'QuerierWrapper::query_wasm_smart$', h_query_wasm_smart)
+
+    def h_query_all_validators(st, fn, callee, args, dty):
+        st.emit(('query', 'all_validators'))
+        for st2, vals in q(st).all_validators(I, st):
+            yield st2, ok(VecV(tuple(vals)))
+    A('query_all_validators', r'QuerierWrapper::query_all_validators$', h_query_all_validators)
 
     def h_query(st, fn, callee, args, dty):
         req = I.val(st, args[1])
